@@ -356,6 +356,11 @@ def run_check(prop: str, tier: str, harness_filter=None, workers=None) -> int:
     for h in hs:
         _REG[h.name] = h
     known = load_known()
+    rdir = os.path.join(VERIF, "evidence", "replays")
+    if os.path.isdir(rdir) and not harness_filter:
+        for fn in os.listdir(rdir):
+            if fn.startswith(prop + "-"):
+                os.unlink(os.path.join(rdir, fn))
     ctx = mp.get_context("fork")
     pool = ctx.Pool(workers) if workers > 1 else None
     per = []
